@@ -61,7 +61,9 @@ def eager_program(with_sets: bool):
 
 def outcome_eager(with_sets: bool, actions=EAGER_ACTIONS):
     return st.fixed_dictionaries({"k": st.just("eager"), "action": st.sampled_from(actions),
-                                  "program": eager_program(with_sets), "sleep": sleeps})
+                                  "program": eager_program(with_sets), "sleep": sleeps,
+                                  # the actor answers inside its own `try ... except Exception` block
+                                  "guard": st.sampled_from([False, False, True])})
 
 
 @st.composite
